@@ -648,6 +648,19 @@ func (g *FieldGen) Mutate(wire []byte) [][]byte {
 		out = append(out, ins, del)
 	}
 	out = append(out, append(append([]byte{}, wire...), r.Bytes(1+r.Intn(4))...))
+	// length-prefix edits: one byte incremented and the data extended by one unit, so that a
+	// prefix announcing max+1 arrives together with max+1 bytes
+	for k := 0; k < 10 && len(wire) > 0; k++ {
+		pos := r.Intn(len(wire))
+		if len(wire) <= 40 {
+			pos = (k * 7) % len(wire)
+		}
+		m := append([]byte{}, wire...)
+		m[pos]++
+		out = append(out, append(m, Pick(r, []byte{'0', 'A', 0x00, 0x11})))
+		ins := append(append(append([]byte{}, m[:pos+1]...), Pick(r, []byte{'0', 'A', 0x11})), m[pos+1:]...)
+		out = append(out, ins)
+	}
 	return out
 }
 
